@@ -5,6 +5,14 @@ import json, subprocess, os
 TECH = "contract-based deductive verification of the real Go code: VCs generated from go/ssa of /repo (govc), contracts in //@ comment files, obligations discharged by z3 4.8.12 / z3 5.1.0 / cvc5 1.0.3 and an exact polynomial normaliser"
 
 claimed = {
+ "C08": dict(
+   text="The contracts of every exported function of ed25519 (non-batch) and extra/x25519 are written once, configuration-independently, in terms of mathematical spec functions; the code of each build configuration (assembly selector, Go selector with the unsafe and with the subtle conditional move, 64- and 32-bit limbs, GOARCH=386 in the thorough tier) is verified against those same contracts together with every internal function it uses. Two configurations therefore return identical bytes for identical inputs. Quick tier: the five configurations that cover every compiled combination of selector x conditional move x limb width; thorough: all seven including a 32-bit target.",
+   note="Identity is a corollary of each configuration meeting the same specification, not a pairwise comparison. Not covered: VerifyBatch (batch_verify.go is not under contract, so limb128bits is not examined). Results left to assumed postconditions (group result of DoubleScalarmultVartime, rejection direction of decoding, the assembly selector's functional contract) are equal across configurations only under those assumptions.",
+   ref="DESIGN.md §6 C08, §13"),
+ "C15": dict(
+   text="Decided by frames instead of schedules: (1) every function under contract (all five packages, both limb layouts) has a write-frame obligation on each individual store, copy, library write and callee modifies clause: memory that existed before the call is written only inside the function's modifies clause, and the exported functions have `modifies nothing` (a transient write that is undone before returning is still reported); (2) one obligation per package-level variable: no function other than a package initialiser writes it, passes its address to a writer, or appends into its backing store (testBatchY is written only under testBatchSaveY, which nothing sets); (3) the module starts no goroutines; (4) results are fresh allocations. Hence concurrent calls on shared read-only inputs cannot race and each call is a function of its arguments and entropy stream.",
+   note="Trusted: Go memory model; sha512/subtle/binary/rand/x-crypto functions are goroutine-safe and stateless. VerifyBatch and the heap routines are not under contract: for them only part (2) and (3) apply (direct global stores and address-passing), not the write-frame obligations. A caller overwriting x25519.Basepoint is outside the property. No schedule or history is enumerated, so violations carry no failing input.",
+   ref="DESIGN.md §6 C15, §13"),
  "C01": dict(
    text="verify / Verify / VerifyWithOptions are verified against one contract: result == vspec(A, M, sig, f, c, zip215), the documented predicate (lengths, S < L via scMinimal, decodability of A and R, small-order rejection in default mode only, and the cofactored group equation on the decoded points with h = SHA-512(dom2 || R || A || M) mod L). Every function between the API and the field arithmetic (ge25519, modm, curve25519; both limb layouts) is checked against its own contract, callers against callee contracts only. Proof level for all inputs; the group-theoretic reading of the leaf formulas and the double-base multiplication result are named assumptions, not proved.",
    note="Trusted: go/ssa, govc, solvers; bridge lemmas B1-B12 (field formulas = group law/encoding), group axioms M2/M4, SHA-512 as a function (M6); DoubleScalarmultVartime's group-level result is an assumed postcondition (its safety, magnitudes and frame are proved); the rejection direction of point decoding (returns false => not decodable) is assumed (M3). Batch verification is not covered.",
@@ -68,6 +76,9 @@ claimed = {
 }
 
 not_applicable = {
+ "C03": "not claimed: the statement needs (a) the lemma sign(..) => vspec(..) = true, whose proof goes through the group-level result of DoubleScalarmultVartime -- an assumed postcondition in the current contracts -- and the prime-order facts about honest R and A (M4), and (b) acceptance by VerifyBatch at every position and size, but batch_verify.go is not under functional contracts. The canonical-S half (S < L) is covered by C02/C04/C19 (sign writes modm.Contract of a reduced value; proved). No other technique is substituted.",
+ "C06": "not claimed: VerifyBatch, the Bos-Coster heap and multiScalarmultVartime are not under functional contracts (they need quantified loop invariants over arrays of points/scalars with symbolic chunk sizes, which the VC generator does not yet support), and the clause 'except with probability below 2^-120 over a uniformly random stream' is a probability statement that a deductive program verifier cannot express or decide. batch_verify.go is covered only by the global-immutability obligations of C15 and the secrecy-independent scans.",
+ "C17": "not claimed: exactness of multiScalarmultVartime (sum of [s_i]P_i) needs the heap invariants and a group-level loop invariant for the Bos-Coster loop, which are not built; the statement is also only true outside a degenerate case the property itself calls negligible (second-largest scalar reaching zero before the 128-bit scalars are inserted, DESIGN.md §6 C17), and 'negligible fraction of entropy streams' is not expressible as a contract.",
 }
 
 props = [json.loads(l) for l in open('/verif/properties.jsonl')]
